@@ -9,7 +9,7 @@ func init() {
 	propFuncs["C06"] = propC06
 	propInfos["C06"] = &PropInfo{
 		Level:   "other",
-		Explain: "Structural necessary conditions decided statically (DESIGN.md §5 C06): D-floor — PMF/CDF of both distributions convert math.Floor(k) (a non-integer k is treated as floor(k), also for negative k); engine B — support decision lists (0 outside / 0 below, 1 from the top), binomial PMF = Choose(N,k)P^k(1-P)^(N-k), CDF = BetaInc(1-P, N-k, k+1), Mean, Variance, NormalApprox, Bounds; hypergeometric support max(0,Draws+K-N)..min(Draws,K), pmf by log-binomials, the tail flip (k' = K-k-1, Draws' = N-Draws, 1-p), CDF = pmf(k)*sum(k), the term ratio recurrence and loop bound of sum, Mean, Variance, Bounds; Step() = 1 and both types implement DiscreteDist.",
+		Explain: "Structural necessary conditions decided statically (DESIGN.md §5 C06): D-floor — PMF/CDF of both distributions convert math.Floor(k) (a non-integer k is treated as floor(k), also for negative k); engine B — support decision lists (0 outside / 0 below, 1 from the top), binomial PMF = Choose(N,k)P^k(1-P)^(N-k), CDF = BetaInc(1-P, N-k, k+1), Mean, Variance, NormalApprox, Bounds; hypergeometric support max(0,Draws+K-N)..min(Draws,K), pmf by log-binomials, the tail flip (k' = K-k-1, Draws' = N-Draws, 1-p), CDF = pmf(k)*sum(k), the term ratio recurrence and loop bound of sum, Mean, Variance, Bounds; Step() = 1 and both types implement DiscreteDist. Added after the mutation sweep: the truncation test of the hypergeometric sum (goes on exactly while eps < ak/sum).",
 		Assume:  []string{"A4 reals", "preconditions: N, K, Draws >= 0"},
 		Undec:   []string{"1e-10 agreement with exact rationals (accuracy of BetaInc, Lchoose, the truncated series)", "that the closed-form moments equal the first two moments of the computed PMF"},
 	}
